@@ -12,6 +12,7 @@ import (
 	"github.com/Trendyol/go-dcp/helpers"
 	"github.com/Trendyol/go-dcp/membership"
 	"github.com/asaskevich/EventBus"
+	"github.com/couchbase/gocbcore/v10"
 	"github.com/prometheus/client_golang/prometheus"
 
 	"verif/vrt"
@@ -24,6 +25,9 @@ import (
 type BurstParams struct {
 	Membership string `json:"membership"` // dynamic | static
 	MaxN       int    `json:"max_n"`
+	// CloseFault: the close-stream request of one vBucket is applied by the server but its reply is lost (the
+	// library's request times out) while the rebalance closes the stream
+	CloseFault bool   `json:"close_fault"`
 	Hold       bool   `json:"hold"` // adversarially delay the membership subscriber of the bus
 	Tight      bool   `json:"tight"` // only gap 0, sources bus then api-rebalance
 }
@@ -57,6 +61,8 @@ func init() {
 				{Scenario: "c11_burst", Params: mustJSON(BurstParams{Membership: "static", MaxN: n}), Bound: b, Shards: 8},
 				{Scenario: "c11_burst", Params: mustJSON(BurstParams{Membership: "dynamic", MaxN: 1, Hold: true}), Bound: b, Shards: 2},
 				{Scenario: "c11_burst", Params: mustJSON(BurstParams{Membership: "static", MaxN: 2, Tight: true}), Bound: 1, Shards: 8, Note: "two notifications at the same instant (bus + GET /rebalance), all single deviations"},
+				{Scenario: "c11_burst", Params: mustJSON(BurstParams{Membership: "static", MaxN: 1, CloseFault: true}), Bound: 0, Shards: 2, Note: "the reply to one close-stream request of the rebalance is lost"},
+				{Scenario: "c11_burst", Params: mustJSON(BurstParams{Membership: "dynamic", MaxN: 1, CloseFault: true}), Bound: 0, Shards: 2, Note: "the reply to one close-stream request of the rebalance is lost"},
 			}
 		},
 	})
@@ -132,6 +138,16 @@ func burstMain(p BurstParams) {
 			return false
 		})
 	}
+	if p.CloseFault {
+		armed := true
+		c.Fault = func(r *gocbcore.SimRequest) gocbcore.SimAnswer {
+			if armed && r.Kind == "closestream" && r.Vb == 1 {
+				armed = false
+				return gocbcore.SimAnswer{Kind: "applydrop"}
+			}
+			return gocbcore.SimAnswer{}
+		}
+	}
 	// the burst
 	n := 1
 	if p.Tight {
@@ -193,6 +209,9 @@ func burstMain(p BurstParams) {
 		ns = append(ns, nt)
 	}
 	// let the system converge
+	if p.CloseFault {
+		vrt.Sleep(2 * time.Minute) // the unanswered close request runs into its 60 s timeout first
+	}
 	vrt.Sleep(3*delay + time.Second)
 	vrt.Quiesce()
 	c.WaitIdle()
